@@ -46,6 +46,54 @@ SPEC_MUTANTS = [
 ]
 
 
+# specification mutants that no TLC invariant sees: the specification is a transcription of the code, so the REPLAY must
+# disagree.  (name, module file, old, new, MC module, cfg)
+REPLAY_MUTANTS = [
+ ("lex-integer-before-float", "LiquidLex.tla",
+  "       [] flo # 0 -> [e |-> flo,", "       [] int = 0 /\\ flo # 0 -> [e |-> flo,", "MC_Lex", "MC_Lex_self.cfg"),
+ ("lex-keyword-needs-word-boundary", "LiquidLex.tla",
+  "Kw(t, p, ws) == KwFrom(t, p, ws, 1)",
+  "Kw(t, p, ws) == LET q == KwFrom(t, p, ws, 1) IN IF q # 0 /\\ ws[1] \\in {\"nil\", \"empty\", \"blank\", \"true\"} /\\ IdCont(t, q) THEN 0 ELSE q",
+  "MC_Lex", "MC_Lex_self.cfg"),
+ ("args-include-rejects-stray-token", "LiquidArgs.tla",
+  "            ELSE IF Has(ts, i + 4) THEN Reject ELSE [ok |-> TRUE, args |-> a]", "            ELSE Reject", "MC_Lex", "MC_Lex_self.cfg"),
+]
+
+
+def run_replay_mutants():
+    ok = True
+    keep = driver.SPEC
+    for name, mod, old, new, mc, cfg in REPLAY_MUTANTS:
+        d = os.path.join(MUT, name)
+        shutil.rmtree(d, ignore_errors=True)
+        os.makedirs(d)
+        for f in os.listdir(keep):
+            if f.endswith(".tla") or f.endswith(".cfg"):
+                shutil.copy(os.path.join(keep, f), d)
+        src = open(os.path.join(d, mod)).read()
+        if old not in src:
+            print("RMUTANT %-32s NOT APPLICABLE (specification text changed): fix lib/selftest.py" % name)
+            ok = False
+            continue
+        open(os.path.join(d, mod), "w").write(src.replace(old, new, 1))
+        with open(os.path.join(keep, "mutants", name + ".txt"), "w") as f:
+            f.write("module %s\n--- replaced ---\n%s\n--- by ---\n%s\n--- must ---\nmake the replay on the real crates disagree (model %s / %s)\n" % (mod, old, new, mc, cfg))
+        driver.SPEC = d
+        try:
+            ck = driver.Check("SELF", "quick", 1)
+            ck.replay_stage(name, mc, cfg, tlc_workers=8)
+            n = len(ck.fails)
+        except Exception as e:       # a mutant that TLC itself rejects is not the point here
+            n = 0
+            print("RMUTANT %-32s tool error: %s" % (name, str(e)[:300]))
+        finally:
+            driver.SPEC = keep
+        print("RMUTANT %-32s %s (%d disagreements with the implementation)" % (name, "killed" if n > 0 else "SURVIVED", n))
+        ok = ok and n > 0
+        shutil.rmtree(d, ignore_errors=True)
+    return ok
+
+
 def run_spec_mutants():
     ok = True
     for name, mod, old, new, mc, cfg, expect in SPEC_MUTANTS:
@@ -208,9 +256,10 @@ def run_trace_corruptions():
 def main():
     driver.build_harness()
     a = run_spec_mutants()
+    c = run_replay_mutants()
     b = run_trace_corruptions()
-    print("SELFTEST %s" % ("ok" if a and b else "FAILED"))
-    return 0 if a and b else 1
+    print("SELFTEST %s" % ("ok" if a and b and c else "FAILED"))
+    return 0 if a and b and c else 1
 
 
 if __name__ == "__main__":
